@@ -268,6 +268,8 @@ def check(prog: Program, res: Result) -> None:
     check_joint(prog, res)
     check_mask(prog, res)
     check_valid(prog, res)
+    from . import _wire
+    _wire.check_peak_wiring(prog, res, "C07-wire")
     res.assumptions.append("refinement bounds (half a patch) and 'refinement helps' are numerical and not decided")
 
 
